@@ -976,9 +976,12 @@ func corpus() []json.RawMessage {
 // write".  That is third-party code outside the property; a crashed batch is
 // simply repeated (same seed, same cases).
 func supervise() {
+	dir := filepath.Join("/var/tmp", fmt.Sprintf("c17-%d", os.Getpid()))
+	defer os.RemoveAll(dir)
 	for attempt := 0; ; attempt++ {
+		os.RemoveAll(dir)
 		cmd := exec.Command(os.Args[0], os.Args[1:]...)
-		cmd.Env = append(os.Environ(), "C17_CHILD=1")
+		cmd.Env = append(os.Environ(), "C17_CHILD="+dir)
 		var errBuf strings.Builder
 		cmd.Stdout = os.Stdout
 		cmd.Stderr = &errBuf
@@ -992,6 +995,7 @@ func supervise() {
 			continue
 		}
 		os.Stderr.WriteString(errBuf.String())
+		os.RemoveAll(dir)
 		os.Exit(1)
 	}
 }
@@ -1002,7 +1006,7 @@ func main() {
 		return
 	}
 	// self-check of the content table against the real decoder
-	scratch = filepath.Join("/var/tmp", fmt.Sprintf("c17-%d", os.Getpid()))
+	scratch = os.Getenv("C17_CHILD")
 	must(os.MkdirAll(scratch, 0o755))
 	defer os.RemoveAll(scratch)
 	typ := dials.NewType(ptrify.Pointerify(reflect.TypeOf(cfgT{}), reflect.ValueOf(cfgT{})))
